@@ -47,6 +47,16 @@ MANIFEST = {
                   "check). Hence C15_avc_sps_er / _pps_er / _slice_er / _slice_all_er, C15_hevc_sps_er / _pps_er / _pps_ext_er / "
                   "_slice_er: the main theorems for the EBSP-reader instance on the serialiser's bytes AFTER emulation prevention "
                   "(extra hypothesis zrun_ok: no run of more than 56 zero bits in the unescaped NAL unit). "
+                  "ROUND 4 (C15HypTheorems.v): C15_avc_sps_parsed_narrow - decoder invariant for EVERY input and both reader "
+                  "instances: an SPS avc.ParseSPSNALUnit returns has log2_max_frame_num_minus4 and log2_max_pic_order_cnt_lsb_minus4 "
+                  "<= 12; hence C15_reader_tie_avc_slice_all_parsed / C15_avc_slice_all_er_parsed: the AVC slice tie and slice theorem "
+                  "with the hypothesis on the parameter sets (sps_narrow) DISCHARGED for every spsMap whose entries were returned by "
+                  "the parser (on whatever bytes). C15_tie_hypothesis_predicate / C15_tie_applies: the ties' hypotheses as one "
+                  "executable predicate hyp_tie_raw on the NAL unit the parser is given (sound and exact), all seven ties restated on "
+                  "it; the extracted predicate is EVALUATED on every SPS/PPS/slice case of every run and the conclusion er = br "
+                  "compared wherever it holds, mutated and near-valid cases included (evidence: "
+                  "coverage.theorem_hypotheses_evaluated; about 98% of the cases). Still hypotheses: zrun_ok itself, hsps_narrow "
+                  "(hevc.ParseSPSNALUnit keeps log2_max_poc_lsb_minus4 as an unchecked byte), pps_narrow only for the pre-repair text. "
                   "EXPLORED only (correspondence + search on generated and captured inputs, no theorem): mutated / truncated NAL "
                   "units and records beyond the reader tie (model = code on outcome class and values), valid NAL units with a run of "
                   "more than 56 zero bits for the EBSP instance, colour mapping tables with res_coeff_r wider than 56 bits and depth "
@@ -60,7 +70,8 @@ MANIFEST = {
                   "of the Go code, tied to /repo by the correspondence on generated inputs only; the C13 model of bits.EBSPReader "
                   "(tied to /repo by C13's own correspondence). The Go map of colour mapping octants is compared by sorted key, the "
                   "map of reference location offsets through RefLocOffsetLayerIds (validity: distinct ids are generated). Unexported "
-                  "state (ShortTermRPS.numUsedByCurrPic) is observed only through its effect on the slice header. Nine defects found "
+                  "state (ShortTermRPS.numUsedByCurrPic) is observed only through its effect on the slice header. C15HypModel.v holds copies of the ties' hypothesis predicates for extraction (proved equal to the "
+                  "originals: C15_tie_hypothesis_predicate). Nine defects found "
                   "by this check were repaired in /repo (known_findings/C15.json: F1, F3-F12); F2 stays known.",
 }
 
@@ -244,7 +255,8 @@ def run(ctx):
         ctx.proof_violation_if_broken(p_, "c15 search: %d evaluations" % ctx.notes.get("search_evaluations", 0))
     ctx.cov["rule"] = ("model-side generation: %d field-value draws through the extracted independent serialisers (every conditional "
                        "syntax branch drawn at random; ue values at powers of two and at the range ends), one in three also mutated "
-                       "(truncation / bit flip / byte substitution, screened by the model for huge decoded counts) + the captured parameter "
+                       "(truncation / bit flip / byte substitution, screened by the model for huge decoded counts) + near-valid AVC SPS / PPS (a "
+                       "range-guarded element drawn just beyond its guard, or any other draw the validity predicate refuses) + the captured parameter "
                        "sets of the repository's test data; distinct = distinct NAL units; corr compares Go with the EBSP-reader model, the "
                        "bit-reader model and the expected values; search compares Go with the expected values; slice cases are histories of "
                        "API calls (7 shapes incl. SPS/PPS replaced under the same id after the PPS was parsed, fresh maps, deletions; "
